@@ -193,6 +193,10 @@ func RunCase(o *Out, specJSON string, callables map[string]any) {
 			runUpdate(o, &spec, r, m)
 			continue
 		}
+		if m.Default != "" {
+			runDefault(o, &spec, r, m)
+			continue
+		}
 		runMethod(o, &spec, r, m)
 	}
 }
